@@ -44,7 +44,12 @@ JudgeResult(st, r) ==
   THEN (IF Declined(st, r) THEN {}
         ELSE IF PurgedMatch(st) THEN {<<"QueryFailed", <<"purged-row-in-index", "">>>>}
         ELSE {<<"QueryFailed", <<Kind(st.q), r.res>>>>})
-  ELSE LET v == Judge(T, ever, st.q, r.variant.limit, r.rows) IN
+  ELSE LET v0 == Judge(T, ever, st.q, r.variant.limit, r.rows)
+           \* empty documents that were indexed and deleted later still count in the index statistics
+           emptyEver == \E k \in DOMAIN docs : TokensOf(docs[k]) = {}
+           v == {IF c[2] = <<"missed-rows", "unindexed">> /\ emptyEver
+                 THEN <<c[1], <<"missed-beside-empty-documents", "unindexed">>>> ELSE c : c \in v0}
+       IN
        IF r.variant.limit > 0 /\ PurgedMatch(st) /\ v # {} /\ (\A c \in v : c[1] = "LimitCount")
        THEN {<<"LimitCount", <<"purged-row-in-index", "">>>>} ELSE v
 Facts(st, r) ==
